@@ -767,13 +767,21 @@ func (fx *Fx) spawnTarget(st *State, call *ast.CallExpr) (string, string, string
 	default:
 		if fn := fx.calleeFunc(call); fn != nil {
 			// receiver (if any) becomes a0 when there are no arguments
+			var recvVal *Val
 			if sel, ok := unparen(call.Fun).(*ast.SelectorExpr); ok {
-				if _, isMethod := fx.info.Selections[sel]; isMethod {
-					rv := fx.eval(st, sel.X)
+				if selection, isMethod := fx.info.Selections[sel]; isMethod {
+					var rv Val
+					if sig, ok := fn.Type().(*types.Signature); ok && sig.Recv() != nil && selection.Kind() == types.MethodVal {
+						rv, _ = fx.evalReceiver(st, sel, selection, sig) // takes the address of an addressable receiver
+					} else {
+						rv = fx.eval(st, sel.X)
+					}
 					a1 = a0
 					a0 = fx.c.box(rv)
+					recvVal = &rv
 				}
 			}
+			fx.spawnPre(st, fn, recvVal, args, call)
 			return fmt.Sprint(fx.c.codeId(funcKeyOf(fn))), a0, a1
 		}
 		v := fx.eval(st, call.Fun)
@@ -977,6 +985,27 @@ func (fx *Fx) assumeRecvInv(st *State, v Val, t types.Type, pos token.Pos) {
 		env := fx.specEnv(st, fx.entry, pos)
 		env.bound["msg"] = v
 		st.assume(fx.specBool(env, ri.Expr))
+		fx.c.warn("assumed message invariant of %s: %s", name, ri.Text)
+	}
+}
+
+// assumeRecvInvIf: as assumeRecvInv, under a guard (the receive delivered a sent value, not the zero value of a closed
+// channel).
+func (fx *Fx) assumeRecvInvIf(st *State, v Val, t types.Type, pos token.Pos, guard string) {
+	if fx.spec == nil {
+		return
+	}
+	name := ""
+	if n, ok := types.Unalias(t).(*types.Named); ok {
+		name = n.Obj().Name()
+	}
+	for _, ri := range fx.spec.RecvInv {
+		if ri.Name != name {
+			continue
+		}
+		env := fx.specEnv(st, fx.entry, pos)
+		env.bound["msg"] = v
+		st.assume(fmt.Sprintf("(=> %s %s)", guard, fx.specBool(env, ri.Expr)))
 		fx.c.warn("assumed message invariant of %s: %s", name, ri.Text)
 	}
 }
